@@ -193,6 +193,9 @@ func (g *Gen) Mixed(id string, n, maxTx int, kinds []string) *Scenario {
 // FamilyScenario returns scenario i of a workload family, deterministic in (seed, i).
 func FamilyScenario(family string, seed int64, i, blocks, maxTx int) *Scenario {
 	gs := DefaultGenesis()
+	if family == "alleg" {
+		gs = AllegGenesis()
+	}
 	id := fmt.Sprintf("%s-%d-%d", family, seed, i)
 	g := NewGen(seed*1000003+int64(i), gs)
 	switch family {
